@@ -497,7 +497,7 @@ fn number<'a>() -> impl Parser<'a, ParserInput<'a>, Literal, ParserError<'a>> {
     integer
         .then(optional_component(frac, |f| f))
         .then(optional_component(exp, |e| e))
-        .map(|((int_part, frac_part), exp_part)| {
+        .try_map(|((int_part, frac_part), exp_part), span| {
             // Construct the number string and remove underscores
             let num_str = format!("{}{}{}", int_part, frac_part, exp_part)
                 .chars()
@@ -506,11 +506,14 @@ fn number<'a>() -> impl Parser<'a, ParserInput<'a>, Literal, ParserError<'a>> {
 
             // Try to parse as integer first, then as float
             if let Ok(i) = num_str.parse::<i64>() {
-                Literal::Integer(i)
-            } else if let Ok(f) = num_str.parse::<f64>() {
-                Literal::Float(f)
+                Ok(Literal::Integer(i))
             } else {
-                Literal::Integer(0) // Fallback
+                match num_str.parse::<f64>() {
+                    // a literal beyond the range of f64 would become infinity,
+                    // which has no spelling in SQL
+                    Ok(f) if f.is_finite() => Ok(Literal::Float(f)),
+                    _ => Err(Simple::new(None, span)),
+                }
             }
         })
 }
